@@ -1,8 +1,9 @@
 (* C13 -- the local steps of a Pandora pipeline as operations on a raster of per-pixel states, built
    from the step models of the other properties (nothing is re-modelled here):
 
-     matching cost (sad / ssd)   Model/MatchingCost.v  sad_volume / ssd_volume           (C02)
+     matching cost               Model/MatchingCost.v  sad / ssd / census / zncc _volume (C02)
        and its validity mask     Model/Criteria.v      after_mc                          (C04)
+     cbca aggregation            Model/Cbca.v          cbca_volume                       (C11)
      winner-takes-all            Model/Wta.v           to_disp                           (C03)
      sub-pixel refinement        Model/Refine.v        loop_pixel                        (C06)
      median filter               Model/Filters.v       median_filter_disparity           (C10)
@@ -18,7 +19,7 @@
    Definitions only. *)
 From Coq Require Import ZArith QArith Qround List Bool.
 From Pandora Require Import Lib.Ext Spec.Local.
-From Pandora Require Model.MatchingCost Model.Criteria Model.Wta Model.Refine Model.Filters Model.CrossCheck.
+From Pandora Require Model.MatchingCost Model.Criteria Model.Wta Model.Refine Model.Filters Model.CrossCheck Model.Cbca.
 Import ListNotations.
 Open Scope Z_scope.
 
@@ -30,6 +31,11 @@ Record pix : Type := mkPix {
   p_fL : Z; p_fR : Z                              (* validity masks *)
 }.
 
+(* the input part of a state: what no step rewrites *)
+Definition img_of (p : pix) : Z * Z * Z * Z := (p_L p, p_R p, p_mL p, p_mR p).
+
+Definition set_cv (p : pix) (cl cr : list (option Q)) : pix :=
+  mkPix (p_L p) (p_R p) (p_mL p) (p_mR p) cl cr (p_dL p) (p_dR p) (p_fL p) (p_fR p).
 Definition set_mc (p : pix) (cl cr : list (option Q)) (fl fr : Z) : pix :=
   mkPix (p_L p) (p_R p) (p_mL p) (p_mR p) cl cr (p_dL p) (p_dR p) fl fr.
 Definition set_disp (p : pix) (dl dr : option Q) (fl fr : Z) : pix :=
@@ -74,10 +80,25 @@ Definition lay_right (G : cfg) (F : frame pix) : Criteria.layout :=
 Definition all_nan (l : list (option Q)) : bool :=
   forallb (fun o => match o with None => true | Some _ => false end) l.
 
-Definition mc_step (ssd : bool) (E : Criteria.env) (G : cfg) : op pix pix := fun F r c =>
-  let vol := if ssd then MatchingCost.ssd_volume else MatchingCost.sad_volume in
-  let cl := curve (vol (inp_left G F) (g_dmin G) (g_dmax G)) (n_disp G) r c in
-  let cr := curve (vol (inp_right G F) (- g_dmax G) (- g_dmin G)) (n_disp G) r c in
+(* the four measures.  A zncc cell of the model is the exact integer triple (cov, varL, varR) (scaled, C02); the cost
+   cov / sqrt(varL varR) is irrational in general: [zq] is whatever evaluates it from the triple (the float32
+   arithmetic of the code) -- DATA, like the Gaussian kernels of the bilateral filter: the theorems hold for
+   EVERY function [zq] *)
+Inductive mmeas : Type :=
+| MSad | MSsd | MCensus
+| MZncc (zq : Z * Z * Z -> Q).
+
+Definition mc_vol (m : mmeas) (inp : MatchingCost.mc_input) (dmin dmax : Z) : Z -> Z -> Z -> option Q :=
+  match m with
+  | MSad => MatchingCost.sad_volume inp dmin dmax
+  | MSsd => MatchingCost.ssd_volume inp dmin dmax
+  | MCensus => MatchingCost.census_volume inp dmin dmax
+  | MZncc zq => fun r c k => MatchingCost.omap zq (MatchingCost.zncc_volume inp dmin dmax r c k)
+  end.
+
+Definition mc_step (m : mmeas) (E : Criteria.env) (G : cfg) : op pix pix := fun F r c =>
+  let cl := curve (mc_vol m (inp_left G F) (g_dmin G) (g_dmax G)) (n_disp G) r c in
+  let cr := curve (mc_vol m (inp_right G F) (- g_dmax G) (- g_dmin G)) (n_disp G) r c in
   set_mc (f_at F r c) cl cr
     (Criteria.after_mc E (lay_left G F) (fun _ _ => all_nan cl) r c)
     (Criteria.after_mc E (lay_right G F) (fun _ _ => all_nan cr) r c).
@@ -95,6 +116,37 @@ Definition wta_step (mx : bool) (B : Z) (invalid : option Q) (G : cfg) : op pix 
   let oR := Wta.to_disp mx B (f_nr F) (f_nc F) (disps (g_s G) (- g_dmax G) (n_disp G)) invalid
               (fun r c => map to_cost (p_cvR (f_at F r c))) (fun _ _ => []) (fld p_fR F) in
   set_disp (f_at F r c) (Wta.o_disp oL r c) (Wta.o_disp oR r c) (Wta.o_mask oL r c) (Wta.o_mask oR r c).
+
+(* ------------------------------------------------------------------ cbca aggregation
+   aggregation_run: cost_volume_aggregation on the left cost volume, and on the right one (images exchanged,
+   interval [-dmax, -dmin]) when the pipeline has a validation step.  The validity masks are not touched.
+   The images are the float32 rasters (integers here), the s-th shifted right image is the linear interpolation
+   at columns j + s/subpix (shift_right_img), the disparities are the samples of the cost volume. *)
+Definition qimg (I : Z -> Z -> Z) : Cbca.img := fun r c => Some (inject_Z (I r c)).
+Definition shifted (sub : Z) (R : Z -> Z -> Z) (s : Z) : Cbca.img :=
+  fun r c => Some (Qred (MatchingCost.shift_right sub R s r c # Z.to_pos sub)).
+Definition cv_at (cv : pix -> list (option Q)) (F : frame pix) (k r c : Z) : option Q :=
+  nth (Z.to_nat k) (cv (f_at F r c)) None.
+
+Definition cbca_left (dist : Z) (inten : Q) (G : cfg) (F : frame pix) : Cbca.cbca_in :=
+  Cbca.mkIn (f_nr F) (f_nc F) (MatchingCost.offset (g_w G)) (g_s G) dist inten
+    (qimg (fld p_L F)) (omask (g_hasL G) (fld p_mL F)) (g_vp G)
+    (shifted (g_s G) (fld p_R F)) (omask (g_hasR G) (fld p_mR F)) (g_vp G)
+    (disps (g_s G) (g_dmin G) (n_disp G)) (cv_at p_cvL F).
+Definition cbca_right (dist : Z) (inten : Q) (G : cfg) (F : frame pix) : Cbca.cbca_in :=
+  Cbca.mkIn (f_nr F) (f_nc F) (MatchingCost.offset (g_w G)) (g_s G) dist inten
+    (qimg (fld p_R F)) (omask (g_hasR G) (fld p_mR F)) (g_vp G)
+    (shifted (g_s G) (fld p_L F)) (omask (g_hasL G) (fld p_mL F)) (g_vp G)
+    (disps (g_s G) (- g_dmax G) (n_disp G)) (cv_at p_cvR F).
+
+(* cost_volume[k][r][c] after the aggregation *)
+Definition cbca_at (x : Cbca.cbca_in) (k r c : Z) : option Q :=
+  Cbca.lookup None (nth (Z.to_nat k) (Cbca.cbca_volume x) []) r c.
+
+Definition cbca_step (dist : Z) (inten : Q) (G : cfg) : op pix pix := fun F r c =>
+  set_cv (f_at F r c)
+    (map (fun k => cbca_at (cbca_left dist inten G F) k r c) (MatchingCost.zrange 0 (n_disp G)))
+    (map (fun k => cbca_at (cbca_right dist inten G F) k r c) (MatchingCost.zrange 0 (n_disp G))).
 
 (* ------------------------------------------------------------------ refinement (vfit / quadratic)
    One pixel of loop_refinement.  A pixel on which the kernel raises (division by zero) or reads
@@ -170,14 +222,29 @@ Definition rad_mc (G : cfg) : radii :=
 Definition rad_filter (w : Z) : radii := mkRad (w / 2) (w / 2) (w / 2).
 Definition rad_xcheck (G : cfg) : radii := mkRad 0 (dspan G) (dspan G).
 
+(* cbca.  An arm has at most [cbca_arm] = max(cbca_distance - 1, 1) pixels (it stops AT cbca_distance; one pixel
+   minimum), and reads nothing further.  The support region of a pixel (vertical arm, then the horizontal arms of
+   each arm pixel) lies within cbca_arm rows and columns: the costs of that square are read.  The arms are
+   measured on the 3x3-median-filtered images, left image around the pixel, right image around column c + d:
+   the images are read one pixel further, columns extended by the disparity span.  The pixel must be that far
+   from the image sides, and (window offset h: the images are cropped by h after filtering) at least
+   cbca_arm + h. *)
+Definition cbca_arm (dist : Z) : Z := Z.max (dist - 1) 1.
+Definition rad_cbca_S (dist : Z) : radii := let A := cbca_arm dist in mkRad A A A.
+Definition rad_cbca_I (G : cfg) (dist : Z) : radii :=
+  let A := cbca_arm dist in mkRad (A + 1) (A + 1 + dspan G) (A + 1 + dspan G).
+Definition rad_cbca_M (G : cfg) (dist : Z) : radii :=
+  let g := cbca_arm dist + Z.max 1 (MatchingCost.offset (g_w G)) in mkRad g (g + dspan G) (g + dspan G).
+
 (* margin of cross-checking: the disparity span, and the window margin that mask_border paints *)
 Definition rad_xcheck_margin (G : cfg) : radii :=
   let h := MatchingCost.offset (g_w G) in mkRad h (Z.max h (dspan G)) (Z.max h (dspan G)).
 
-(* ------------------------------------------------------------------ pipelines of the modelled steps *)
+(* ------------------------------------------------------------------ pipelines of the local steps *)
 
 Inductive step : Type :=
-| SMc (ssd : bool)
+| SMc (m : mmeas)
+| SCbca (dist : Z) (inten : Q)
 | SWta (mx : bool) (invalid : option Q)
 | SRefine (me : Refine.method) (m : Refine.measure)
 | SMedian (w : Z)
@@ -191,7 +258,8 @@ Record env : Type := mkEnvL {
 
 Definition step_op (V : env) (s : step) : op pix pix :=
   match s with
-  | SMc ssd => mc_step ssd (e_flags V) (e_cfg V)
+  | SMc m => mc_step m (e_flags V) (e_cfg V)
+  | SCbca dist inten => cbca_step dist inten (e_cfg V)
   | SWta mx invalid => wta_step mx (e_bwta V) invalid (e_cfg V)
   | SRefine me m => refine_step (e_refine V) me m (e_cfg V)
   | SMedian w => median_step (e_inv V) (e_bmed V) w
@@ -202,65 +270,74 @@ Definition step_op (V : env) (s : step) : op pix pix :=
 (* window of the bilateral filter: int(3 * sigma_space + 1) *)
 Definition bil_win (sigma_space : Q) : Z := Qfloor (3 * sigma_space + 1).
 
-(* data cone and margin of each step *)
-Definition step_D (G : cfg) (s : step) : radii :=
+(* the radii of every local step kind (what the harness computes with: [kpipe_rad], extracted) *)
+Inductive kstep : Type :=
+| KMc                  (* matching cost, any measure: window + disparity span, on the images *)
+| KCbca (dist : Z)     (* cbca: arms of at most max(cbca_distance - 1, 1) pixels; 3x3 median pre-filter *)
+| KPoint               (* winner-takes-all, refinement *)
+| KFilter (w : Z)      (* median filter_size, bilateral window int(3 sigma_space + 1) *)
+| KXcheck.
+Definition forget (s : step) : kstep :=
   match s with
-  | SMc _ => rad_mc G
-  | SWta _ _ | SRefine _ _ => rad0
-  | SMedian w => rad_filter w
-  | SBilateral sigma _ _ => rad_filter (bil_win sigma)
-  | SXcheck _ => rad_xcheck G
+  | SMc _ => KMc | SCbca dist _ => KCbca dist | SWta _ _ | SRefine _ _ => KPoint | SMedian w => KFilter w
+  | SBilateral sigma _ _ => KFilter (bil_win sigma) | SXcheck _ => KXcheck
   end.
-Definition step_M (G : cfg) (s : step) : radii :=
-  match s with
-  | SXcheck _ => rad_xcheck_margin G
-  | _ => step_D G s
+
+(* per step: the cone of the STATES it reads (products of earlier steps), the cone of the IMAGES it reads itself,
+   the margin (how far the pixel must be from the sides of the raster) *)
+Definition kstep_S (G : cfg) (k : kstep) : radii :=
+  match k with
+  | KMc => rad0
+  | KCbca dist => rad_cbca_S dist
+  | KPoint => rad0
+  | KFilter w => rad_filter w
+  | KXcheck => rad_xcheck G
   end.
+Definition kstep_I (G : cfg) (k : kstep) : radii :=
+  match k with
+  | KMc => rad_mc G
+  | KCbca dist => rad_cbca_I G dist
+  | _ => rad0
+  end.
+Definition kstep_M (G : cfg) (k : kstep) : radii :=
+  match k with
+  | KMc => rad_mc G
+  | KCbca dist => rad_cbca_M G dist
+  | KXcheck => rad_xcheck_margin G
+  | _ => kstep_S G k
+  end.
+Definition step_S (G : cfg) (s : step) : radii := kstep_S G (forget s).
+Definition step_I (G : cfg) (s : step) : radii := kstep_I G (forget s).
+Definition step_M (G : cfg) (s : step) : radii := kstep_M G (forget s).
+
 Definition step_side (G : cfg) (s : step) : side pix :=
   match s with
   | SXcheck _ => fun F r c => px_ok G (f_at F r c)
   | _ => no_side
   end.
 
-(* cone and margin of a pipeline (first step first): cones add; the margin of "s then rest" is the larger
-   of the margin of rest and the cone of rest plus the margin of s *)
-Fixpoint pipe_rad (G : cfg) (steps : list step) : radii * radii :=
-  match steps with
-  | [] => (rad0, rad0)
-  | s :: rest => let '(Ds, Ms) := pipe_rad G rest in (radd Ds (step_D G s), rmax Ms (radd Ds (step_M G s)))
+(* cones and margin of a pipeline (first step first).  State cones add; the image cone of "s then rest" is the
+   larger of the image cone of rest and the state cone of rest plus the image cone of s; likewise the margin *)
+Definition rad3 : Type := radii * radii * radii.
+Fixpoint kpipe_rad3 (G : cfg) (ks : list kstep) : rad3 :=
+  match ks with
+  | [] => (rad0, rad0, rad0)
+  | k :: rest =>
+      let '(DSs, DIs, Ms) := kpipe_rad3 G rest in
+      (radd DSs (kstep_S G k), rmax DIs (radd DSs (kstep_I G k)), rmax Ms (radd DSs (kstep_M G k)))
   end.
+Definition pipe_rad3 (G : cfg) (steps : list step) : rad3 := kpipe_rad3 G (map forget steps).
+Definition r3_S (t : rad3) : radii := fst (fst t).
+Definition r3_I (t : rad3) : radii := snd (fst t).
+Definition r3_M (t : rad3) : radii := snd t.
+
+(* the dependency cone of a pixel (all the data its result is a function of) and the margin *)
+Definition kpipe_rad (G : cfg) (ks : list kstep) : radii * radii :=
+  let t := kpipe_rad3 G ks in (rmax (r3_S t) (r3_I t), r3_M t).
+Definition pipe_rad (G : cfg) (steps : list step) : radii * radii := kpipe_rad G (map forget steps).
+
 Fixpoint pipe_side (V : env) (steps : list step) : side pix :=
   match steps with
   | [] => no_side
-  | s :: rest => side_comp (step_side (e_cfg V) s) (step_op V s) (pipe_side V rest) (fst (pipe_rad (e_cfg V) rest))
-  end.
-
-(* ------------------------------------------------------------------ radii of every local step kind,
-   including those whose locality is not proved at model level (census, zncc: proved on the spec;
-   cbca: compared by the metamorphic runs only): what the harness uses *)
-Inductive kstep : Type :=
-| KMc            (* any measure: window + disparity span *)
-| KCbca (dist : Z)     (* arms (at most cbca_distance) on the 3x3-median-filtered images *)
-| KPoint         (* winner-takes-all, refinement *)
-| KFilter (w : Z)      (* median filter_size, bilateral window int(3 sigma_space + 1) *)
-| KXcheck.
-Definition forget (s : step) : kstep :=
-  match s with
-  | SMc _ => KMc | SWta _ _ | SRefine _ _ => KPoint | SMedian w => KFilter w
-  | SBilateral sigma _ _ => KFilter (bil_win sigma) | SXcheck _ => KXcheck
-  end.
-Definition kstep_D (G : cfg) (k : kstep) : radii :=
-  match k with
-  | KMc => rad_mc G
-  | KCbca dist => mkRad (dist + 1) (dist + 1) (dist + 1)
-  | KPoint => rad0
-  | KFilter w => rad_filter w
-  | KXcheck => rad_xcheck G
-  end.
-Definition kstep_M (G : cfg) (k : kstep) : radii :=
-  match k with KXcheck => rad_xcheck_margin G | _ => kstep_D G k end.
-Fixpoint kpipe_rad (G : cfg) (ks : list kstep) : radii * radii :=
-  match ks with
-  | [] => (rad0, rad0)
-  | k :: rest => let '(Ds, Ms) := kpipe_rad G rest in (radd Ds (kstep_D G k), rmax Ms (radd Ds (kstep_M G k)))
+  | s :: rest => side_comp (step_side (e_cfg V) s) (step_op V s) (pipe_side V rest) (r3_S (pipe_rad3 (e_cfg V) rest))
   end.
